@@ -28,8 +28,9 @@ def derive(case, obs):
     """bookkeeping over the parsed event log: per generation the rollouts, the snapshots taken at the end of every
     test(), the selection outcome and the lineage sums of environment steps / learn calls."""
     n = obs["pop_in"]
-    taken = [0] * n
-    learned = [0] * n
+    # what the individuals bring along: the counter they are handed over with counts as taken by their lineage
+    taken = list(obs.get("taken0") or [st["steps"][-1] for st in obs.get("start", [])] or [0] * n)
+    learned = list(obs.get("learned0") or taken)
     out = []
     for g in obs["gens"]:
         rolls = [(r["env_steps"], r["learns"]) for r in g["rollouts"]]
@@ -50,6 +51,24 @@ def derive(case, obs):
         d["learned_after"] = list(learned)
         out.append(d)
     return out, taken, learned
+
+
+def segments(case, obs):
+    """(case, observation) per call of the training function; the lineage sums are threaded from call to call"""
+    segs = obs.get("segments") or []
+    if not segs:
+        yield case, obs
+        return
+    taken0 = learned0 = None
+    for seg in segs:
+        c = dict(case); c["max_steps"] = seg["max_steps"]
+        o = dict(seg)
+        if taken0 is not None and len(taken0) == len(seg.get("start", [])):
+            o["taken0"], o["learned0"] = taken0, learned0
+        yield c, o
+        if not (o.get("completed") and not o.get("error")):
+            return
+        _, taken0, learned0 = derive(c, o)
 
 
 def ck_steps(names):
@@ -184,6 +203,46 @@ class C20(vlib.Driver):
         add(loop="off", algo="DQN", memory="nstep", num_envs=2, learn_step=2, evo_steps=8, max_steps=16)
         add(loop="off", algo="DDPG", memory="per+nstep", num_envs=2, learn_step=2, evo_steps=8, max_steps=16)
         add(loop="off", algo="TD3", memory="per", num_envs=1, learn_step=1, evo_steps=8, max_steps=16)
+        # --- round 3: the function is called again on the population it returned (budgets = max_steps of the successive
+        #     calls; the last one is already met -> zero generations), for all six loops
+        add(loop="off", algo="DQN", num_envs=2, learn_step=2, evo_steps=8, max_steps=16, budgets=[16, 33, 30])
+        add(loop="off", algo="Rainbow DQN", memory="per+nstep", n_step=2, num_envs=2, learn_step=2, evo_steps=8, max_steps=8,
+            budgets=[8, 24, 24], evo=True, mut="hp", checkpoint=8)
+        add(loop="on", algo="PPO", num_envs=2, learn_step=4, evo_steps=8, max_steps=16, budgets=[16, 24, 24], evo=True, mut="none", pop=3)
+        add(loop="offline", algo="CQN", evo_steps=3, max_steps=6, budgets=[6, 10, 9])
+        add(loop="bandit", algo="NeuralTS", episode_steps=4, evo_steps=6, max_steps=8, budgets=[8, 13, 12], evo=True, mut="none", batch_size=2)
+        add(loop="maoff", algo="MADDPG", num_envs=2, learn_step=2, evo_steps=8, max_steps=16, budgets=[16, 20, 24, 24])
+        add(loop="maon", algo="IPPO", num_envs=2, learn_step=4, evo_steps=8, max_steps=32, budgets=[32, 48, 40])
+        add(loop="maon", algo="IPPO", num_envs=0, learn_step=3, evo_steps=6, max_steps=12, budgets=[12, 13, 36], pop=3, evo=True, mut="hp")
+        #     eval_loop in {2, 3} for every algorithm (one fitness entry per agent and generation whatever the number of episodes)
+        add(loop="off", algo="DQN", eval_loop=3, eval_steps=2, max_steps=16)
+        add(loop="off", algo="Rainbow DQN", eval_loop=2, max_steps=16, evo=True, mut="none")
+        add(loop="off", algo="DDPG", eval_loop=3, eval_steps=3, max_steps=16, evo=True, mut="none", pop=3)
+        add(loop="off", algo="TD3", eval_loop=2, eval_steps=2, num_envs=0, max_steps=16)
+        add(loop="on", algo="PPO", eval_loop=3, learn_step=4, evo_steps=8, max_steps=16, evo=True, mut="hp")
+        add(loop="offline", algo="CQN", eval_loop=3, eval_steps=2, evo_steps=3, max_steps=6)
+        add(loop="offline", algo="CQN", eval_loop=2, evo_steps=3, max_steps=6, evo=True, mut="none")
+        add(loop="bandit", algo="NeuralUCB", eval_loop=2, episode_steps=4, evo_steps=4, max_steps=8)
+        add(loop="bandit", algo="NeuralTS", eval_loop=3, episode_steps=4, evo_steps=4, max_steps=8, evo=True, mut="none")
+        add(loop="maoff", algo="MADDPG", eval_loop=3, eval_steps=2, max_steps=16)
+        add(loop="maoff", algo="MATD3", eval_loop=2, max_steps=16, evo=True, mut="none")
+        add(loop="maoff", algo="MATD3", eval_loop=3, eval_steps=3, num_envs=0, max_steps=16, evo=True, mut="hp", pop=3)
+        add(loop="maon", algo="IPPO", eval_loop=2, learn_step=4, max_steps=32, evo=True, mut="none")
+        add(loop="maon", algo="IPPO", eval_loop=3, eval_steps=2, num_envs=0, learn_step=3, evo_steps=6, max_steps=24)
+        #     populations handed over in a permuted index order and with history (counters at 5, two earlier generations, the
+        #     individual with the LARGEST index clearly best: it is the elite while another index stands last)
+        add(loop="off", algo="DQN", pop=4, perm=[1, 3, 0, 2], preset={"steps": 5, "nfit": 2, "best": 3}, tour_eval_loop=3,
+            evo=True, mut="none", elitism=True, max_steps=21)
+        add(loop="on", algo="PPO", pop=4, perm=[3, 2, 1, 0], preset={"steps": 5, "nfit": 2, "best": 3}, tour_eval_loop=3,
+            evo=True, mut="hp", elitism=True, learn_step=4, evo_steps=8, max_steps=21)
+        add(loop="maoff", algo="MATD3", pop=4, perm=[1, 3, 0, 2], preset={"steps": 7, "nfit": 2, "best": 3}, tour_eval_loop=3,
+            evo=True, mut="none", elitism=True, max_steps=23)
+        add(loop="maon", algo="IPPO", pop=3, perm=[2, 0, 1], preset={"steps": 4, "nfit": 2, "best": 2}, tour_eval_loop=3,
+            evo=True, mut="none", elitism=True, learn_step=4, max_steps=60)
+        add(loop="offline", algo="CQN", pop=3, perm=[2, 1, 0], preset={"steps": 2, "nfit": 1, "best": 2}, tour_eval_loop=2,
+            evo=True, mut="none", elitism=True, evo_steps=3, max_steps=8)
+        add(loop="bandit", algo="NeuralUCB", pop=3, perm=[1, 2, 0], preset={"steps": 3, "nfit": 2, "best": 2}, tour_eval_loop=3,
+            evo=True, mut="none", elitism=True, episode_steps=4, evo_steps=4, max_steps=11)
         # --- early stop (needs 99 generations: the cheapest loop)
         add(loop="bandit", algo="NeuralUCB", episode_steps=1, evo_steps=50, max_steps=150, target=-1.0, eval_steps=1, batch_size=4, learn_step=1)
         if tier == "thorough":
@@ -236,6 +295,24 @@ class C20(vlib.Driver):
                     c["image"] = True
                 if c.get("evo") and r2.random() < 0.2:
                     c["mut"] = "act"
+                # round 3: more evaluation episodes, repeated calls on the returned population, permuted populations with history
+                if r2.random() < 0.3:
+                    c["eval_loop"] = r2.choice([2, 3])
+                    if c.get("grouped") and c.get("sum_scores") is False:
+                        c["eval_loop"] = 1
+                if ne0 == 3:
+                    c["eval_loop"] = 1
+                if r2.random() < 0.25:
+                    m0 = c["max_steps"]
+                    c["budgets"] = [m0, m0 + r2.choice([1, tot, 2 * tot + 1]), m0 + r2.choice([0, 1])]
+                if c.get("evo") and r2.random() < 0.3:
+                    perm = list(range(c["pop"])); r2.shuffle(perm)
+                    c["perm"] = perm
+                    c["preset"] = {"steps": r2.choice([0, 3, 5]), "nfit": 2, "best": r2.randrange(c["pop"])}
+                    c["tour_eval_loop"] = 3
+                    c["max_steps"] = c["max_steps"] + c["preset"]["steps"]
+                    if c.get("budgets"):
+                        c["budgets"] = [b + c["preset"]["steps"] for b in c["budgets"]]
             if rng.random() < 0.4:
                 c.update(checkpoint=rng.choice([S, S + 1, 2 * S, max(1, S // 2)]), overwrite=rng.random() < 0.3)
             cases.append(c)
@@ -262,10 +339,18 @@ class C20(vlib.Driver):
             LOOPNAME[case["loop"]], ne_of(case), case["evo_steps"], case["max_steps"], case.get("episode_steps", 0),
             case.get("learning_delay", 0) if case["loop"] in ("off", "maoff") else 0, case.get("mem_cap", 64), n,
             case.get("checkpoint") or 0, "true" if case.get("evo") else "false",
-            "true" if case.get("elitism", True) else "false", case.get("tour_pop", case["pop"]), case.get("eval_loop", 1),
+            "true" if case.get("elitism", True) else "false", case.get("tour_pop", case["pop"]), R.tour_eval_loop(case),
             "None" if t is None else f"(Some {coq_Q(t)})")
 
     def coq_term(self, case, obs):
+        if not obs.get("completed") or obs.get("error"):
+            return None
+        terms = [self.coq_term_seg(c, o) for c, o in segments(case, obs)]
+        if any(t is None for t in terms):
+            return None
+        return "(" + ") && (".join(terms) + ")" if len(terms) > 1 else terms[0]
+
+    def coq_term_seg(self, case, obs):
         if not obs.get("completed") or obs.get("error"):
             return None
         gens, taken, _ = derive(case, obs)
@@ -297,8 +382,16 @@ class C20(vlib.Driver):
                 "None" if cks is None else "(Some [" + "; ".join(map(str, cks)) + "])"))
         final = "; ".join("(%d, [%s], %d, %d)" % (f["index"], "; ".join(map(str, f["steps"])), f["nfit"], tk)
                           for f, tk in zip(obs["final"], taken))
-        pop0 = "[" + "; ".join(f"fresh_agent {i}" for i in obs["pop_in_indices"]) + "]"
-        return "check_run %s %s [%s] [%s] [%s]" % (self.cfg_term(case), pop0, "; ".join(inps), "; ".join(obl), final)
+        start = obs.get("start")
+        if start is None:
+            pop0 = "[" + "; ".join(f"fresh_agent {i}" for i in obs["pop_in_indices"]) + "]"
+            return "check_run %s %s [%s] [%s] [%s]" % (self.cfg_term(case), pop0, "; ".join(inps), "; ".join(obl), final)
+        tk0 = obs.get("taken0") or [st["steps"][-1] for st in start]
+        pop0 = "[" + "; ".join("{| idx := %d; stp := [%s]; fit := [%s]; taken := %d |}" % (
+            st["index"], "; ".join(map(str, reversed(st["steps"]))), "; ".join(coq_Q(x) for x in reversed(st["fitness"])), tk)
+            for st, tk in zip(start, tk0)) + "]"
+        return "check_run_from %s %s %d [%s] [%s] [%s]" % (self.cfg_term(case), pop0, obs.get("mem_start", 0),
+                                                          "; ".join(inps), "; ".join(obl), final)
 
     # ---------- oracle: the property stated directly on the behaviour of the implementation
     def site(self, case, obs):
@@ -306,6 +399,16 @@ class C20(vlib.Driver):
         return w[-1].split(":")[-1]
 
     def oracle(self, case, obs):
+        out, seen = [], set()
+        for c, o in segments(case, obs):
+            for v in self.oracle_seg(c, o):
+                if o.get("call"):
+                    v.detail = f"call {o['call'] + 1} on the same population (budgets {case.get('budgets')}): " + v.detail
+                if v.signature not in seen:
+                    seen.add(v.signature); out.append(v)
+        return out
+
+    def oracle_seg(self, case, obs):
         out = []
         loop, algo = case["loop"], case["algo"]
         tag = f"{loop}:{algo}"
@@ -323,6 +426,8 @@ class C20(vlib.Driver):
         npop = obs["pop_in"]
         fin = obs["final"]
         mx = case["max_steps"]
+        start = obs.get("start") or [{"index": i, "steps": [0], "fitness": []} for i in obs["pop_in_indices"]]
+        nfit0, len0 = len(start[0]["fitness"]), len(start[0]["steps"])
         # population size and indices
         if len(set(obs["pop_in_indices"])) != npop:
             out.append(Violation("indices", f"indices:{tag}:create_population", f"create_population built indices {obs['pop_in_indices']}"))
@@ -338,7 +443,8 @@ class C20(vlib.Driver):
                 out.append(Violation("one-fitness", f"one-fitness:{tag}:tests-per-generation",
                                      f"generation {gi}: {len(d['tests'])} evaluations / {len(d['rolls'])} training phases for {npop} agents"))
                 return out
-            starts = [(t["steps"][-2] if len(t["steps"]) >= 2 else 0) for t in d["tests"]]
+            starts = ([st["steps"][-1] for st in start] if gi == 0 else
+                      [(t["steps"][-2] if len(t["steps"]) >= 2 else 0) for t in d["tests"]])
             # the generation ran, so the budget must not have been met before it
             met = (sum(starts) >= mx) if loop == "maon" else any(s >= mx for s in starts)
             if met:
@@ -351,9 +457,10 @@ class C20(vlib.Driver):
                     out.append(Violation("steps-eq-env", f"steps-eq-env:{tag}",
                                          f"generation {gi} agent at position {pos}: counter grew by {inc}, "
                                          f"{'environment steps taken' if loop != 'offline' else 'learn calls'} = {want}"))
-                if t["nfit"] != len(t["steps"]):
+                if t["nfit"] != nfit0 + gi + 1 or len(t["steps"]) != len0 + gi:
                     out.append(Violation("one-fitness", f"one-fitness:{tag}:agent",
-                                         f"generation {gi} position {pos}: {t['nfit']} fitness entries after {len(t['steps'])} generations of its lineage"))
+                                         f"generation {gi} position {pos}: {t['nfit']} fitness entries and {len(t['steps'])} steps entries; handed over with "
+                                         f"{nfit0} / {len0}, so {nfit0 + gi + 1} / {len0 + gi} expected right after its evaluation"))
             sel = d["select"]
             if sel is not None:
                 before, after = sel["before"], sel["after"]
@@ -388,7 +495,7 @@ class C20(vlib.Driver):
             cap = case.get("mem_cap", 64)
             delay = case.get("learning_delay", 0)
             nst = case.get("n_step", 3) if case.get("memory") in ("nstep", "per+nstep") else 0
-            stored, calls = 0, 0
+            stored, calls = int(obs.get("mem_start", 0)), 0
             n_it = case["evo_steps"] // ne
             for gi, d in enumerate(gens):
                 for pos, (t, r) in enumerate(zip(d["tests"], d["rolls"])):
@@ -414,7 +521,7 @@ class C20(vlib.Driver):
                                      f"the memory holds {obs['mem_len']} transitions after {G} generations; every turn of {n_it} iterations stores "
                                      f"(iterations - (n_step - 1)) x num_envs = {max(0, n_it - max(0, nst - 1)) * ne}, expected {min(stored, cap)} (capacity {cap})"))
         if loop == "bandit":
-            stored = 0
+            stored = int(obs.get("mem_start", 0))
             for gi, d in enumerate(gens):
                 for pos, (t, r) in enumerate(zip(d["tests"], d["rolls"])):
                     want = 0
@@ -477,8 +584,15 @@ class C20(vlib.Driver):
             if f["steps"][-1] != want:
                 out.append(Violation("steps-eq-env", f"steps-eq-env:{tag}:returned",
                                      f"returned agent {pos} (index {f['index']}): steps[-1]={f['steps'][-1]}, its lineage took {want}"))
-            if f["nfit"] != G:
-                out.append(Violation("one-fitness", f"one-fitness:{tag}:returned", f"returned agent {pos}: {f['nfit']} fitness entries after {G} generations"))
+            if f["nfit"] != nfit0 + G:
+                out.append(Violation("one-fitness", f"one-fitness:{tag}:returned",
+                                     f"returned agent {pos}: {f['nfit']} fitness entries after {G} generations (handed over with {nfit0})"))
+        if G == 0:
+            # budget already met at the call: nothing runs, the population comes back as it was handed over
+            if [(f["index"], f["steps"], f["nfit"]) for f in fin] != [(st["index"], st["steps"], len(st["fitness"])) for st in start]:
+                out.append(Violation("budget", f"budget:{tag}:zero-generations-changed",
+                                     f"no generation ran but the population changed: {[(f['index'], f['steps']) for f in fin]} "
+                                     f"from {[(st['index'], st['steps']) for st in start]}"))
         rows = obs.get("ret_fit_rows", [])
         if len(rows) != G or any(r != npop for r in rows):
             out.append(Violation("one-fitness", f"one-fitness:{tag}:returned-fitnesses",
@@ -534,7 +648,8 @@ class C20(vlib.Driver):
         return super().key(k)
 
     def nontrivial(self, case, obs):
-        return bool(obs.get("completed")) and not obs.get("error") and len(obs.get("gens", [])) >= 2
+        total = sum(len(sg.get("gens", [])) for sg in obs.get("segments") or [obs])
+        return bool(obs.get("completed")) and not obs.get("error") and total >= 2
 
     def classify(self, case, obs):
         labs = [f"loop={case['loop']}", f"algo={case['algo']}", f"env={'plain' if plain(case) else 'vec' + str(case['num_envs'])}",
@@ -543,6 +658,10 @@ class C20(vlib.Driver):
                 f"obs={'image+swap_channels' if case.get('image') else 'dict' if case.get('dictobs') else 'vector'}",
                 f"generations={min(len(obs.get('gens', [])), 5)}{'+' if len(obs.get('gens', [])) > 5 else ''}",
                 f"completed={bool(obs.get('completed')) and not obs.get('error')}"]
+        labs += [f"calls={len(case.get('budgets') or [0])}", f"eval_loop={case.get('eval_loop', 1)}",
+                 f"handed-over={'permuted+history' if case.get('perm') else 'fresh'}"]
+        if any(len(sg.get("gens", [])) == 0 for sg in obs.get("segments") or []):
+            labs.append("call-with-budget-already-met")
         ne, ls = ne_of(case), case["learn_step"]
         if case["loop"] in ("off", "maoff"):
             labs.append("schedule=" + ("learn_step>num_envs" if ls > ne else "learn_step<=num_envs"))
